@@ -6,6 +6,7 @@ open Cppcheck.Wire Cppcheck.Cache
 /-
 Line protocol (one op per line; strings are hex, "-" = empty):
   pre <path> <version> <product> <sev5> <cc> <force> <maxcfg> <level> <ud> <prem> <na> {<name> <args>}* <dump>
+      X <inconclusive> <unusedFunction> <missingInclude> <getC> <getCPP> <platform> <nu> {<undef>}* <nl> {<lib>}*
       M <n> {<str> <line> <col> <comment>}* H <nh> {<name> <n> {tok}*}*
         -> hex of `hashInput Gen.encoding` over `renderToolinfo Gen.toolinfoItems`   ("unrendered" if an item names an unknown field)
   prx <toolinfo> M … H …   -> hex of `hashInput Gen.encoding` for a given toolinfo string (Preprocessor::calculateHash alone)
@@ -93,8 +94,11 @@ def histToolinfo (path dump : Str) : Option Str :=
   renderToolinfo Cppcheck.Gen.HashInput.toolinfoItems
     { version := ['v'], product := [],
       sevs := [("warning", false), ("style", false), ("performance", false), ("portability", false), ("information", false)],
-      bools := [("checkConfiguration", false), ("force", false)], strs := [("userDefines", []), ("premiumArgs", [])],
-      ints := [("maxConfigsOption", 0)], enums := [("checkLevel", 2)], addons := [], dump := dump, filePath := path }
+      bools := [("checkConfiguration", false), ("force", false), ("certainty:inconclusive", false), ("checks:unusedFunction", false),
+                ("checks:missingInclude", false)],
+      strs := [("userDefines", []), ("premiumArgs", []), ("standards.getC", []), ("standards.getCPP", []), ("platform.toString", [])],
+      ints := [("maxConfigsOption", 0)], enums := [("checkLevel", 2)], addons := [], dump := dump, filePath := path,
+      lists := [("userUndefs", []), ("libraries", [])] }
 
 def parseRunFiles : Nat → List String → Option (List FileInput × List String)
   | 0, r => some ([], r)
@@ -170,28 +174,51 @@ def histStep (args : List String) : String :=
     | none => "bad-op"
   | _ => "bad-op"
 
+/-- the `pre` op -/
+def preStep (args : List String) : Option String := do
+  match args with
+  | path :: ver :: prod :: sev :: cc :: force :: maxcfg :: level :: ud :: prem :: na :: rest =>
+    let path ← fromHex path
+    let ver ← fromHex ver
+    let prod ← fromHex prod
+    let maxcfg ← maxcfg.toInt?
+    let level ← level.toNat?
+    let ud ← fromHex ud
+    let prem ← fromHex prem
+    let na ← na.toNat?
+    let (addons, rest) ← parseAddons na rest
+    match rest with
+    | dump :: "X" :: inc :: uf :: mi :: stdc :: stdcpp :: plat :: nu :: rest0 =>
+      let dump ← fromHex dump
+      let stdc ← fromHex stdc
+      let stdcpp ← fromHex stdcpp
+      let plat ← fromHex plat
+      let nu ← nu.toNat?
+      let undefs ← (rest0.take nu).mapM fromHex
+      match rest0.drop nu with
+      | nl :: rest1 =>
+        let nl ← nl.toNat?
+        let libs ← (rest1.take nl).mapM fromHex
+        let (main, hdrs, tail) ← parseFiles (rest1.drop nl)
+        if !tail.isEmpty then none else
+        let sv : SettingsView :=
+          { version := ver, product := prod,
+            sevs := [("warning", bit sev 0), ("style", bit sev 1), ("performance", bit sev 2), ("portability", bit sev 3), ("information", bit sev 4)],
+            bools := [("checkConfiguration", cc == "1"), ("force", force == "1"), ("certainty:inconclusive", inc == "1"),
+                      ("checks:unusedFunction", uf == "1"), ("checks:missingInclude", mi == "1")],
+            strs := [("userDefines", ud), ("premiumArgs", prem), ("standards.getC", stdc), ("standards.getCPP", stdcpp), ("platform.toString", plat)],
+            ints := [("maxConfigsOption", maxcfg)], enums := [("checkLevel", level)],
+            addons := addons, dump := dump, filePath := path, lists := [("userUndefs", undefs), ("libraries", libs)] }
+        match renderToolinfo Cppcheck.Gen.HashInput.toolinfoItems sv with
+        | some ti => some (toHex (hashInput Cppcheck.Gen.HashInput.encoding { path := path, toolinfo := ti, main := main, headers := hdrs }))
+        | none => some "unrendered"
+      | _ => none
+    | _ => none
+  | _ => none
+
 def step (line : String) : String :=
   match fields line with
-  | "pre" :: path :: ver :: prod :: sev :: cc :: force :: maxcfg :: level :: ud :: prem :: na :: rest =>
-    match fromHex path, fromHex ver, fromHex prod, maxcfg.toInt?, level.toNat?, fromHex ud, fromHex prem, na.toNat? with
-    | some path, some ver, some prod, some maxcfg, some level, some ud, some prem, some na =>
-      match parseAddons na rest with
-      | some (addons, dump :: rest') =>
-        match fromHex dump, parseFiles rest' with
-        | some dump, some (main, hdrs, []) =>
-          let sv : SettingsView :=
-            { version := ver, product := prod,
-              sevs := [("warning", bit sev 0), ("style", bit sev 1), ("performance", bit sev 2), ("portability", bit sev 3), ("information", bit sev 4)],
-              bools := [("checkConfiguration", cc == "1"), ("force", force == "1")],
-              strs := [("userDefines", ud), ("premiumArgs", prem)],
-              ints := [("maxConfigsOption", maxcfg)], enums := [("checkLevel", level)],
-              addons := addons, dump := dump, filePath := path }
-          match renderToolinfo Cppcheck.Gen.HashInput.toolinfoItems sv with
-          | some ti => toHex (hashInput Cppcheck.Gen.HashInput.encoding { path := path, toolinfo := ti, main := main, headers := hdrs })
-          | none => "unrendered"
-        | _, _ => "bad-op"
-      | _ => "bad-op"
-    | _, _, _, _, _, _, _, _ => "bad-op"
+  | "pre" :: rest => (preStep rest).getD "bad-op"
   | "prx" :: ti :: rest =>
     match fromHex ti, parseFiles rest with
     | some ti, some (main, hdrs, []) =>
